@@ -86,7 +86,7 @@ Init ==
   /\ dir \in Dirs
   /\ st \in (StartStates \cap StatesOf(dir))
   /\ file \in (IF dir = "down" /\ st \notin {"VIRGIN"} THEN BOOLEAN ELSE {FALSE})
-  /\ failR = (st = "FAILED")
+  /\ failR \in (IF st = "FAILED" THEN BOOLEAN ELSE {FALSE})   \* FAILED without a reason is auto-retried
   /\ abortR = (st = "ABORTED")
   /\ bg \in (IF st \in {"QUEUED", "INITIALIZING", "DOWNLOADING", "UPLOADING", "INCOMPLETE"} THEN BOOLEAN ELSE {FALSE})
   /\ bgCancelled = FALSE
@@ -216,4 +216,15 @@ RefusedOnlyIfNotAllowed ==
 \* The file of a download disappears only by an abort.
 FileOnlyRemovedByAbort ==
   [][(file /\ ~file') => \E c \in Callers : op[c] = "abort" /\ pc[c] = "rmfile"]_vars
+
+----------------------------------------------------------------------------
+\* State constraints used by the schedule-generation configs (not properties).
+\* Callers call in the order 1, 2, 3 (symmetry) ...
+OrderedCallers == \A c \in Callers : (c > 1 /\ pc[c] # "idle") => pc[c - 1] # "idle"
+\* ... and the first call is a slow one (abort/pause with something to cancel or a file to
+\* remove), because only a suspended holder lets other callers overlap.
+SlowFocus ==
+  /\ OrderedCallers
+  /\ pc[1] # "idle" => /\ op[1] \in {"abort", "pause"}
+                        /\ cap[1] \notin {"VIRGIN", "COMPLETE", "FAILED", "ABORTED"}
 =============================================================================
